@@ -347,6 +347,14 @@ def q_dimers(c, A, ctx):
     ]  # fmt: skip
 
 
+def q_ani(c, A, ctx):
+    # another class built from a crystal (on the pinned tree it asks the
+    # crystal for a method that does not exist, on both sides)
+    from chmpy.descriptors.symmetry_function_ani1 import SymmetryFunctionsANI1
+
+    return SymmetryFunctionsANI1.from_crystal(c).as_flat_matrix()
+
+
 def q_wulff(c, A, ctx):
     # classes of the library that are built *from* a crystal
     from chmpy.crystal.wulff import WulffConstruction
@@ -533,6 +541,7 @@ SLOW_QUERIES = {
     "nn_info": (q_nn_info, "C"),
     "mol_sd": (q_mol_sd, "C"),
     "wulff": (q_wulff, "N"),
+    "ani": (q_ani, "C"),
     "atomic_sd": (q_atomic_sd, "C"),
     "group_sd": (q_group_sd, "C"),
     "fgroup": (q_fgroup, "C"),
